@@ -1,5 +1,6 @@
 """C09 — the computed cover is a minimum-cardinality cover by prime boxes."""
 import concurrent.futures
+import itertools
 import json
 import os
 
@@ -15,7 +16,8 @@ THEORIES = ['theories/L5Cover/BoxesProofs.vo',
             'theories/L5Cover/MinCoverBounded3L.vo',
             'theories/L5Cover/MinCoverBounded4.vo',
             'theories/L5Cover/BoundsProofs.vo',
-            'theories/L5Cover/FloorLitProofs.vo']
+            'theories/L5Cover/FloorLitProofs.vo',
+            'theories/L5Cover/MinCoverRefuted.vo']
 
 HEADER = cq.HEADER + 'From Omega Require Import L5Cover.MinCover.\n'
 
@@ -77,6 +79,16 @@ def gen_instances(ctx):
         g = rng.randrange(0, 256)
         cm = None if rng.random() < 0.6 else (rng.randrange(1, 65536) | c)
         out.append(('core4', ci.boolean_instance(4, c | (g << 8), cm, bk())))
+    # dense functions of 5 two-valued variables: the 5-cube minus k points,
+    # care = TRUE (greedy cover often not minimum, branches pruned at the
+    # root: exercises the bounds returned by _traverse)
+    decl5 = {n: (0, 1) for n in ['x', 'y', 'z', 'w', 'v']}
+    pts5 = list(itertools.product([0, 1], repeat=5))
+    for _ in range(200 if ctx.thorough else 12):
+        k = rng.randrange(4, 9)
+        drop = set(rng.sample(range(32), k))
+        f = [p for i, p in enumerate(pts5) if i not in drop]
+        out.append(('cube5minus', ci.instance(decl5, f, None, bk())))
     # subsets of the 3x3 integer grid (care = type hints; bit-field is 4x4)
     decl = dict(x=(0, 2), y=(0, 2))
     hints = [(a, b) for a in range(3) for b in range(3)]
@@ -214,7 +226,8 @@ def correspond(ctx):
         'functions of 3 two-valued variables with care=TRUE and sampled care '
         'sets; functions of 4 two-valued variables with care=TRUE (thorough: '
         'all 65534); the four 3-variable cyclic cores embedded in 4-variable '
-        'functions; subsets of the 3x3 integer grid with care = type hints '
+        'functions; the 5-cube minus 4..8 random points (5 two-valued '
+        'variables, care=TRUE); subsets of the 3x3 integer grid with care = type hints '
         '(thorough: all 511); random 1-4 variable integer instances in the '
         'three hint shapes with f/care random subsets of the bit-range grid. '
         'Per instance, evaluated by vm_compute: verified checker on the real '
